@@ -1878,6 +1878,12 @@ let rec skipn n0 l =
              | [] -> []
              | _ :: l0 -> skipn n1 l0)
 
+(** val seq : nat -> nat -> nat list **)
+
+let rec seq start = function
+| O -> []
+| S len0 -> start :: (seq (S start) len0)
+
 (** val eqb0 : byte -> byte -> bool **)
 
 let eqb0 a b =
@@ -5907,7 +5913,8 @@ let rec skipnN k l = match l with
 let lenN l =
   N.of_nat (length l)
 
-type src = { bbuf : bytes; lo : bytes; segs0 : bytes list; sfuel : nat }
+type src = { bbuf : bytes; lo : bytes; segs0 : bytes list; sfuel : nat;
+             stake : n option }
 
 (** val mk_src : bytes -> bytes list -> src **)
 
@@ -5916,7 +5923,16 @@ let mk_src leftover stream =
     (add
       (mul (S (S (S (S O)))) (S
         (add (length leftover) (length (concat stream))))) (S (S (S (S (S (S
-      (S (S O))))))))) }
+      (S (S O))))))))); stake = None }
+
+(** val mk_src_take : bytes -> bytes list -> n -> src **)
+
+let mk_src_take leftover stream limit =
+  { bbuf = []; lo = leftover; segs0 = stream; sfuel =
+    (add
+      (mul (S (S (S (S O)))) (S
+        (add (length leftover) (length (concat stream))))) (S (S (S (S (S (S
+      (S (S O))))))))); stake = (Some limit) }
 
 (** val src_rest : src -> bytes **)
 
@@ -5944,19 +5960,34 @@ let inner_read k l sg =
   | [] -> let (out, sg') = stream_read k sg in ((out, []), sg')
   | _ :: _ -> (((firstnN k l), (skipnN k l)), sg)
 
+(** val take_read : n -> src -> ((bytes * bytes) * bytes list) * n option **)
+
+let take_read k s =
+  match s.stake with
+  | Some lim ->
+    if N.eqb lim N0
+    then ((([], s.lo), s.segs0), (Some N0))
+    else let (p, sg') = inner_read (N.min k lim) s.lo s.segs0 in
+         let (out, l') = p in
+         (((out, l'), sg'), (Some (N.sub lim (lenN out))))
+  | None -> ((inner_read k s.lo s.segs0), None)
+
 (** val fill_buf : src -> src **)
 
 let fill_buf s =
   match s.bbuf with
   | [] ->
-    let (p, sg') = inner_read bUF_SIZE s.lo s.segs0 in
-    let (out, l') = p in { bbuf = out; lo = l'; segs0 = sg'; sfuel = s.sfuel }
+    let (p, tk) = take_read bUF_SIZE s in
+    let (p0, sg') = p in
+    let (out, l') = p0 in
+    { bbuf = out; lo = l'; segs0 = sg'; sfuel = s.sfuel; stake = tk }
   | _ :: _ -> s
 
 (** val consume : n -> src -> src **)
 
 let consume n0 s =
-  { bbuf = (skipnN n0 s.bbuf); lo = s.lo; segs0 = s.segs0; sfuel = s.sfuel }
+  { bbuf = (skipnN n0 s.bbuf); lo = s.lo; segs0 = s.segs0; sfuel = s.sfuel;
+    stake = s.stake }
 
 (** val buf_read : n -> src -> bytes * src **)
 
@@ -5964,9 +5995,11 @@ let buf_read k s =
   match s.bbuf with
   | [] ->
     if N.leb bUF_SIZE k
-    then let (p, sg') = inner_read k s.lo s.segs0 in
-         let (out, l') = p in
-         (out, { bbuf = []; lo = l'; segs0 = sg'; sfuel = s.sfuel })
+    then let (p, tk) = take_read k s in
+         let (p0, sg') = p in
+         let (out, l') = p0 in
+         (out, { bbuf = []; lo = l'; segs0 = sg'; sfuel = s.sfuel; stake =
+         tk })
     else let s' = fill_buf s in ((firstnN k s'.bbuf), (consume k s'))
   | _ :: _ -> ((firstnN k s.bbuf), (consume k s))
 
@@ -6272,7 +6305,7 @@ type body =
 (** val new_fixed : bytes -> bytes list -> n -> body **)
 
 let new_fixed leftover stream len =
-  BFixed { f_src = (mk_src leftover stream); f_remaining = len }
+  BFixed { f_src = (mk_src_take leftover stream len); f_remaining = len }
 
 (** val new_chunked : bytes -> bytes list -> body **)
 
@@ -6638,3 +6671,623 @@ let spec_fixed n0 l =
   match take_n n0 l with
   | Some p0 -> let (p, rest) = p0 in Valid (p, rest)
   | None -> Invalid Truncated
+
+type behaviour =
+| BAll
+| BReadK of n
+| BNone of n
+| BFirst
+| BHold
+| BErr
+| BErrAfter
+| BClose
+| BReader of n
+
+type hook_action =
+| HProceed
+| HAnswer
+| HAnswerClose
+
+type app0 = { behaviour_of : (request -> behaviour);
+              hook_of : (request -> hook_action);
+              describe : (request -> bytes -> bytes) }
+
+type response_ev = { rs_status : n; rs_body : bytes; rs_close : bool }
+
+type rr =
+| RParsed of bytes * request
+| RTooLarge
+| RInvalid
+| REof
+
+(** val read_request :
+    nat -> nat -> bytes -> bytes list -> rr * bytes list **)
+
+let rec read_request fuel max_size filled sg =
+  match fuel with
+  | O -> (REof, sg)
+  | S fuel' ->
+    if Nat.eqb (length filled) max_size
+    then (RTooLarge, sg)
+    else let (out, sg') =
+           stream_read (N.of_nat (sub max_size (length filled))) sg
+         in
+         (match out with
+          | [] -> (REof, sg')
+          | _ :: _ ->
+            let buf = app filled out in
+            (match parse_request buf with
+             | Ok r -> ((RParsed (buf, r)), sg')
+             | Err e ->
+               (match e with
+                | EEof -> read_request fuel' max_size buf sg'
+                | _ -> (RInvalid, sg'))
+             | Fault _ -> (RInvalid, sg')))
+
+(** val te_tokens : headers -> bytes list **)
+
+let te_tokens h =
+  token_values h tRANSFER_ENCODING
+
+(** val te_final_chunked : headers -> bool **)
+
+let te_final_chunked h =
+  match rev (te_tokens h) with
+  | [] -> false
+  | t :: _ ->
+    eq_ic t
+      (bs (String ((Ascii (true, true, false, false, false, true, true,
+        false)), (String ((Ascii (false, false, false, true, false, true,
+        true, false)), (String ((Ascii (true, false, true, false, true, true,
+        true, false)), (String ((Ascii (false, true, true, true, false, true,
+        true, false)), (String ((Ascii (true, true, false, true, false, true,
+        true, false)), (String ((Ascii (true, false, true, false, false,
+        true, true, false)), (String ((Ascii (false, false, true, false,
+        false, true, true, false)), EmptyString)))))))))))))))
+
+(** val te_present : headers -> bool **)
+
+let te_present h =
+  match te_tokens h with
+  | [] -> false
+  | _ :: _ -> true
+
+(** val from_request : bytes -> bytes list -> headers -> body **)
+
+let from_request leftover sg h =
+  if h.chunked
+  then new_chunked leftover sg
+  else (match h.content_length with
+        | Some n0 ->
+          if N.eqb n0 N0
+          then new_empty leftover sg
+          else new_fixed leftover sg n0
+        | None -> new_empty leftover sg)
+
+(** val read_to_end : nat -> body -> bytes -> (bytes, ioerr) sum * body **)
+
+let rec read_to_end fuel b acc =
+  match fuel with
+  | O -> ((Inl acc), b)
+  | S fuel' ->
+    (match body_read (Npos (XO (XO (XO (XO (XO (XO (XO (XO (XO (XO (XO (XO
+             (XO XH)))))))))))))) b with
+     | ROk (out, b') ->
+       (match out with
+        | [] -> ((Inl acc), b')
+        | _ :: _ -> read_to_end fuel' b' (app acc out))
+     | RErr (e, b') -> ((Inr e), b'))
+
+(** val read_k : nat -> n -> body -> bytes -> (bytes, ioerr) sum * body **)
+
+let rec read_k fuel k b acc =
+  match fuel with
+  | O -> ((Inl acc), b)
+  | S fuel' ->
+    if N.eqb k N0
+    then ((Inl acc), b)
+    else (match body_read k b with
+          | ROk (out, b') ->
+            (match out with
+             | [] -> ((Inl acc), b')
+             | _ :: _ -> read_k fuel' (N.sub k (lenN out)) b' (app acc out))
+          | RErr (e, b') -> ((Inr e), b'))
+
+(** val body_fuel : body -> nat **)
+
+let body_fuel b =
+  (body_src b).sfuel
+
+(** val after_drop : body -> bytes list **)
+
+let after_drop b =
+  (body_src (drain (body_fuel b) b)).segs0
+
+(** val reader_payload : n -> bytes **)
+
+let reader_payload n0 =
+  map (fun i ->
+    n2b
+      (N.add (Npos (XI (XO (XO (XO (XO (XI XH)))))))
+        (N.modulo (N.of_nat i) (Npos (XO (XI (XO (XI XH))))))))
+    (seq O (N.to_nat n0))
+
+(** val run_handler :
+    app0 -> request -> body -> (response_ev list * bool) * bytes list **)
+
+let run_handler a r b =
+  let resp = fun st body0 cl -> { rs_status = st; rs_body = body0; rs_close =
+    cl }
+  in
+  (match a.behaviour_of r with
+   | BAll ->
+     let (s, b') = read_to_end (body_fuel b) b [] in
+     (match s with
+      | Inl data ->
+        ((((resp (Npos (XO (XO (XO (XI (XO (XO (XI XH))))))))
+             (a.describe r data) false) :: []), true), (after_drop b'))
+      | Inr _ -> (([], false), (after_drop b')))
+   | BReadK k ->
+     let (s, b') = read_k (body_fuel b) k b [] in
+     (match s with
+      | Inl data ->
+        ((((resp (Npos (XO (XO (XO (XI (XO (XO (XI XH))))))))
+             (a.describe r data) false) :: []), true), (after_drop b'))
+      | Inr _ -> (([], false), (after_drop b')))
+   | BNone st ->
+     ((((resp st (a.describe r []) false) :: []), true), (after_drop b))
+   | BFirst ->
+     let (_, b') = read_to_end (body_fuel b) b [] in
+     ((((resp (Npos (XO (XO (XO (XI (XO (XO (XI XH)))))))) (a.describe r [])
+          false) :: []), true), (after_drop b'))
+   | BHold ->
+     ((((resp (Npos (XO (XO (XO (XI (XO (XO (XI XH)))))))) (a.describe r [])
+          false) :: []), true), (after_drop b))
+   | BErr -> (([], false), (after_drop b))
+   | BErrAfter ->
+     ((((resp (Npos (XO (XO (XO (XI (XO (XO (XI XH)))))))) (a.describe r [])
+          false) :: []), false), (after_drop b))
+   | BClose ->
+     ((((resp (Npos (XO (XO (XO (XI (XO (XO (XI XH)))))))) (a.describe r [])
+          true) :: []), true), (after_drop b))
+   | BReader n0 ->
+     ((((resp (Npos (XO (XO (XO (XI (XO (XO (XI XH))))))))
+          (reader_payload n0) false) :: []), true), (after_drop b)))
+
+type one = { o_resps : response_ev list; o_keep : bool; o_ok : bool;
+             o_rest : bytes list; o_hooked : bool; o_eof : bool }
+
+(** val close_resp : n -> response_ev **)
+
+let close_resp st =
+  { rs_status = st; rs_body = []; rs_close = true }
+
+(** val handle_one_request : app0 -> nat -> bool -> bytes list -> one **)
+
+let handle_one_request a max_head ka sg =
+  let (r0, sg') =
+    read_request (add (S (length sg)) (length (concat sg))) max_head [] sg
+  in
+  (match r0 with
+   | RParsed (buf, r) ->
+     let h = r.q_hdrs in
+     if (&&) (te_present h) (negb (te_final_chunked h))
+     then { o_resps =
+            ((close_resp (Npos (XO (XO (XO (XO (XI (XO (XO (XI XH)))))))))) :: []);
+            o_keep = false; o_ok = true; o_rest = sg'; o_hooked = false;
+            o_eof = false }
+     else let client_close = h.connection_close in
+          let leftover = skipn r.q_offset buf in
+          let b = from_request leftover sg' h in
+          (match a.hook_of r with
+           | HProceed ->
+             let (p, rest) = run_handler a r b in
+             let (resps, ok) = p in
+             let ka' = (&&) ka (negb (existsb (fun r1 -> r1.rs_close) resps))
+             in
+             { o_resps = resps; o_keep =
+             ((&&) ((&&) ok (negb client_close)) ka'); o_ok = ok; o_rest =
+             rest; o_hooked = true; o_eof = false }
+           | HAnswer ->
+             { o_resps = ({ rs_status = (Npos (XO (XO (XO (XI (XO (XO (XI
+               XH)))))))); rs_body =
+               (bs (String ((Ascii (false, false, false, true, false, true,
+                 true, false)), (String ((Ascii (true, true, true, true,
+                 false, true, true, false)), (String ((Ascii (true, true,
+                 true, true, false, true, true, false)), (String ((Ascii
+                 (true, true, false, true, false, true, true, false)),
+                 EmptyString))))))))); rs_close = false } :: []); o_keep =
+               ((&&) ka (negb client_close)); o_ok = true; o_rest =
+               (after_drop b); o_hooked = true; o_eof = false }
+           | HAnswerClose ->
+             { o_resps = ({ rs_status = (Npos (XO (XO (XO (XI (XO (XO (XI
+               XH)))))))); rs_body =
+               (bs (String ((Ascii (false, false, false, true, false, true,
+                 true, false)), (String ((Ascii (true, true, true, true,
+                 false, true, true, false)), (String ((Ascii (true, true,
+                 true, true, false, true, true, false)), (String ((Ascii
+                 (true, true, false, true, false, true, true, false)),
+                 EmptyString))))))))); rs_close = true } :: []); o_keep =
+               false; o_ok = true; o_rest = (after_drop b); o_hooked = true;
+               o_eof = false })
+   | RTooLarge ->
+     { o_resps =
+       ((close_resp (Npos (XI (XI (XI (XI (XO (XI (XO (XI XH)))))))))) :: []);
+       o_keep = false; o_ok = true; o_rest = sg'; o_hooked = false; o_eof =
+       false }
+   | RInvalid ->
+     { o_resps =
+       ((close_resp (Npos (XO (XO (XO (XO (XI (XO (XO (XI XH)))))))))) :: []);
+       o_keep = false; o_ok = true; o_rest = sg'; o_hooked = false; o_eof =
+       false }
+   | REof ->
+     { o_resps = []; o_keep = false; o_ok = true; o_rest = sg'; o_hooked =
+       false; o_eof = true })
+
+type conn_result = { c_resps : response_ev list; c_ok : bool;
+                     c_rest : bytes list; c_requests : nat; c_waiting : 
+                     bool }
+
+(** val handle_connection :
+    nat -> app0 -> nat -> bool -> bytes list -> response_ev list -> nat ->
+    conn_result **)
+
+let rec handle_connection fuel a max_head ka sg acc nreq =
+  match fuel with
+  | O ->
+    { c_resps = acc; c_ok = true; c_rest = sg; c_requests = nreq; c_waiting =
+      false }
+  | S fuel' ->
+    let o = handle_one_request a max_head ka sg in
+    let acc' = app acc o.o_resps in
+    let n' = if o.o_hooked then S nreq else nreq in
+    if negb o.o_ok
+    then { c_resps = acc'; c_ok = false; c_rest = o.o_rest; c_requests = n';
+           c_waiting = false }
+    else if o.o_keep
+         then handle_connection fuel' a max_head
+                ((&&) ka (negb (existsb (fun r -> r.rs_close) o.o_resps)))
+                o.o_rest acc' n'
+         else { c_resps = acc'; c_ok = true; c_rest = o.o_rest; c_requests =
+                n'; c_waiting = o.o_eof }
+
+(** val serve_conn : app0 -> nat -> bytes list -> conn_result **)
+
+let serve_conn a max_head sg =
+  handle_connection (add (S (length sg)) (length (concat sg))) a max_head
+    true sg [] O
+
+type framing =
+| FChunked
+| FFixed of n
+| FEmpty
+| FReject
+
+(** val values_of : bytes -> (bytes * bytes) list -> bytes list **)
+
+let values_of name fs =
+  map snd (filter (fun f -> same_name (fst f) name) fs)
+
+(** val te_codings : (bytes * bytes) list -> bytes list **)
+
+let te_codings fs =
+  flat_map tokens
+    (values_of
+      (bs (String ((Ascii (false, false, true, false, true, true, true,
+        false)), (String ((Ascii (false, true, false, false, true, true,
+        true, false)), (String ((Ascii (true, false, false, false, false,
+        true, true, false)), (String ((Ascii (false, true, true, true, false,
+        true, true, false)), (String ((Ascii (true, true, false, false, true,
+        true, true, false)), (String ((Ascii (false, true, true, false,
+        false, true, true, false)), (String ((Ascii (true, false, true,
+        false, false, true, true, false)), (String ((Ascii (false, true,
+        false, false, true, true, true, false)), (String ((Ascii (true,
+        false, true, true, false, true, false, false)), (String ((Ascii
+        (true, false, true, false, false, true, true, false)), (String
+        ((Ascii (false, true, true, true, false, true, true, false)), (String
+        ((Ascii (true, true, false, false, false, true, true, false)),
+        (String ((Ascii (true, true, true, true, false, true, true, false)),
+        (String ((Ascii (false, false, true, false, false, true, true,
+        false)), (String ((Ascii (true, false, false, true, false, true,
+        true, false)), (String ((Ascii (false, true, true, true, false, true,
+        true, false)), (String ((Ascii (true, true, true, false, false, true,
+        true, false)), EmptyString))))))))))))))))))))))))))))))))))) fs)
+
+(** val last_is_chunked : bytes list -> bool **)
+
+let last_is_chunked cs =
+  match rev cs with
+  | [] -> false
+  | c :: _ ->
+    same_name c
+      (bs (String ((Ascii (true, true, false, false, false, true, true,
+        false)), (String ((Ascii (false, false, false, true, false, true,
+        true, false)), (String ((Ascii (true, false, true, false, true, true,
+        true, false)), (String ((Ascii (false, true, true, true, false, true,
+        true, false)), (String ((Ascii (true, true, false, true, false, true,
+        true, false)), (String ((Ascii (true, false, true, false, false,
+        true, true, false)), (String ((Ascii (false, false, true, false,
+        false, true, true, false)), EmptyString)))))))))))))))
+
+(** val cl_decision : bytes list -> framing **)
+
+let cl_decision vs =
+  match map cl_value vs with
+  | [] -> FEmpty
+  | o :: rest ->
+    (match o with
+     | Some n0 ->
+       if forallb (fun o0 ->
+            match o0 with
+            | Some m -> N.eqb m n0
+            | None -> false) rest
+       then if N.eqb n0 N0 then FEmpty else FFixed n0
+       else FReject
+     | None -> FReject)
+
+(** val rfc_framing : (bytes * bytes) list -> framing **)
+
+let rfc_framing fs =
+  match te_codings fs with
+  | [] ->
+    cl_decision
+      (values_of
+        (bs (String ((Ascii (true, true, false, false, false, true, true,
+          false)), (String ((Ascii (true, true, true, true, false, true,
+          true, false)), (String ((Ascii (false, true, true, true, false,
+          true, true, false)), (String ((Ascii (false, false, true, false,
+          true, true, true, false)), (String ((Ascii (true, false, true,
+          false, false, true, true, false)), (String ((Ascii (false, true,
+          true, true, false, true, true, false)), (String ((Ascii (false,
+          false, true, false, true, true, true, false)), (String ((Ascii
+          (true, false, true, true, false, true, false, false)), (String
+          ((Ascii (false, false, true, true, false, true, true, false)),
+          (String ((Ascii (true, false, true, false, false, true, true,
+          false)), (String ((Ascii (false, true, true, true, false, true,
+          true, false)), (String ((Ascii (true, true, true, false, false,
+          true, true, false)), (String ((Ascii (false, false, true, false,
+          true, true, true, false)), (String ((Ascii (false, false, false,
+          true, false, true, true, false)),
+          EmptyString))))))))))))))))))))))))))))) fs)
+  | b :: l -> if last_is_chunked (b :: l) then FChunked else FReject
+
+(** val raw_fields : bytes -> (bytes * bytes) list **)
+
+let raw_fields s =
+  match strict_head s with
+  | Some p -> let (sh, _) = p in sfield_pairs sh.s_fields
+  | None -> []
+
+type body_view =
+| BodyOk of bytes * bytes
+| BodyBad
+| BodyUnspec
+
+(** val view_body : framing -> bytes -> body_view **)
+
+let view_body f after_head =
+  match f with
+  | FChunked ->
+    (match spec_decode after_head with
+     | Valid (p, r) -> BodyOk (p, r)
+     | Invalid _ -> BodyBad
+     | Unspecified -> BodyUnspec)
+  | FFixed n0 ->
+    (match spec_fixed n0 after_head with
+     | Valid (p, r) -> BodyOk (p, r)
+     | Invalid _ -> BodyBad
+     | Unspecified -> BodyUnspec)
+  | FEmpty -> BodyOk ([], after_head)
+  | FReject -> BodyBad
+
+(** val ev : n -> bytes -> bool -> response_ev **)
+
+let ev st b c =
+  { rs_status = st; rs_body = b; rs_close = c }
+
+(** val firstn_bytes : n -> bytes -> bytes **)
+
+let firstn_bytes k l =
+  firstn (N.to_nat (N.min k (N.of_nat (length l)))) l
+
+(** val spec_one :
+    app0 -> request -> (bytes * bytes) list -> bytes -> (response_ev
+    list * bool) * bytes **)
+
+let spec_one a r raw after_head =
+  match rfc_framing raw with
+  | FReject ->
+    ((((ev (Npos (XO (XO (XO (XO (XI (XO (XO (XI XH))))))))) [] true) :: []),
+      false), [])
+  | x ->
+    let req_close = eval_close raw in
+    let v = view_body x after_head in
+    let rest = match v with
+               | BodyOk (_, r') -> r'
+               | _ -> [] in
+    let readable = match v with
+                   | BodyOk (_, _) -> true
+                   | _ -> false in
+    let payload = match v with
+                  | BodyOk (p, _) -> p
+                  | _ -> [] in
+    (match a.hook_of r with
+     | HProceed ->
+       (match a.behaviour_of r with
+        | BAll ->
+          if readable
+          then ((((ev (Npos (XO (XO (XO (XI (XO (XO (XI XH))))))))
+                    (a.describe r payload) false) :: []), (negb req_close)),
+                 rest)
+          else (([], false), [])
+        | BReadK k ->
+          ((((ev (Npos (XO (XO (XO (XI (XO (XO (XI XH))))))))
+               (a.describe r (firstn_bytes k payload)) false) :: []),
+            ((&&) (negb req_close) readable)), rest)
+        | BNone st ->
+          ((((ev st (a.describe r []) false) :: []),
+            ((&&) (negb req_close) readable)), rest)
+        | BErr -> (([], false), [])
+        | BErrAfter ->
+          ((((ev (Npos (XO (XO (XO (XI (XO (XO (XI XH))))))))
+               (a.describe r []) false) :: []), false), [])
+        | BClose ->
+          ((((ev (Npos (XO (XO (XO (XI (XO (XO (XI XH))))))))
+               (a.describe r []) true) :: []), false), rest)
+        | BReader n0 ->
+          ((((ev (Npos (XO (XO (XO (XI (XO (XO (XI XH))))))))
+               (reader_payload n0) false) :: []),
+            ((&&) (negb req_close) readable)), rest)
+        | _ ->
+          ((((ev (Npos (XO (XO (XO (XI (XO (XO (XI XH))))))))
+               (a.describe r []) false) :: []),
+            ((&&) (negb req_close) readable)), rest))
+     | HAnswer ->
+       ((((ev (Npos (XO (XO (XO (XI (XO (XO (XI XH))))))))
+            (bs (String ((Ascii (false, false, false, true, false, true,
+              true, false)), (String ((Ascii (true, true, true, true, false,
+              true, true, false)), (String ((Ascii (true, true, true, true,
+              false, true, true, false)), (String ((Ascii (true, true, false,
+              true, false, true, true, false)), EmptyString))))))))) false) :: []),
+         ((&&) (negb req_close) readable)), rest)
+     | HAnswerClose ->
+       ((((ev (Npos (XO (XO (XO (XI (XO (XO (XI XH))))))))
+            (bs (String ((Ascii (false, false, false, true, false, true,
+              true, false)), (String ((Ascii (true, true, true, true, false,
+              true, true, false)), (String ((Ascii (true, true, true, true,
+              false, true, true, false)), (String ((Ascii (true, true, false,
+              true, false, true, true, false)), EmptyString))))))))) true) :: []),
+         false), rest))
+
+type ending =
+| EClosed
+| EWaiting
+| EUnspec
+
+(** val body_unspecified :
+    request -> (bytes * bytes) list -> bytes -> bool **)
+
+let body_unspecified _ raw after_head =
+  match rfc_framing raw with
+  | FReject -> false
+  | x -> (match view_body x after_head with
+          | BodyUnspec -> true
+          | _ -> false)
+
+(** val spec_conn_f :
+    nat -> app0 -> nat -> bytes -> response_ev list -> response_ev
+    list * ending **)
+
+let rec spec_conn_f fuel a max_head s acc =
+  match fuel with
+  | O -> (acc, EClosed)
+  | S fuel' ->
+    (match s with
+     | [] -> (acc, EWaiting)
+     | _ :: _ ->
+       (match parse_request (firstn max_head s) with
+        | Ok r ->
+          if body_unspecified r (raw_fields (firstn max_head s))
+               (skipn r.q_offset s)
+          then (acc, EUnspec)
+          else let (p, rest) =
+                 spec_one a r (raw_fields (firstn max_head s))
+                   (skipn r.q_offset s)
+               in
+               let (resps, keep) = p in
+               if keep
+               then spec_conn_f fuel' a max_head rest (app acc resps)
+               else ((app acc resps), EClosed)
+        | Err e ->
+          (match e with
+           | EEof ->
+             if Nat.leb max_head (length s)
+             then ((app acc
+                     ((ev (Npos (XI (XI (XI (XI (XO (XI (XO (XI XH)))))))))
+                        [] true) :: [])), EClosed)
+             else (acc, EWaiting)
+           | _ ->
+             ((app acc
+                ((ev (Npos (XO (XO (XO (XO (XI (XO (XO (XI XH))))))))) []
+                   true) :: [])), EClosed))
+        | Fault _ ->
+          ((app acc
+             ((ev (Npos (XO (XO (XO (XO (XI (XO (XO (XI XH))))))))) [] true) :: [])),
+            EClosed)))
+
+(** val spec_conn : app0 -> nat -> bytes -> response_ev list * ending **)
+
+let spec_conn a max_head s =
+  spec_conn_f (S (length s)) a max_head s []
+
+type reqinfo = { ri_end : nat; ri_chunked : bool; ri_readable : bool;
+                 ri_reads_body : bool }
+
+(** val reads_body : app0 -> request -> bool **)
+
+let reads_body a r =
+  match a.hook_of r with
+  | HProceed -> (match a.behaviour_of r with
+                 | BAll -> true
+                 | _ -> false)
+  | _ -> false
+
+(** val req_infos : nat -> app0 -> nat -> bytes -> nat -> reqinfo list **)
+
+let rec req_infos fuel a max_head s pos =
+  match fuel with
+  | O -> []
+  | S fuel' ->
+    (match s with
+     | [] -> []
+     | _ :: _ ->
+       (match parse_request (firstn max_head s) with
+        | Ok r ->
+          let raw = raw_fields (firstn max_head s) in
+          let f = rfc_framing raw in
+          let after = skipn r.q_offset s in
+          (match f with
+           | FReject -> []
+           | _ ->
+             (match view_body f after with
+              | BodyOk (_, rest) ->
+                let e = add pos (sub (length s) (length rest)) in
+                { ri_end = e; ri_chunked =
+                (match f with
+                 | FChunked -> true
+                 | _ -> false); ri_readable = true; ri_reads_body =
+                (reads_body a r) } :: (req_infos fuel' a max_head rest e)
+              | BodyBad ->
+                { ri_end = (add pos (length s)); ri_chunked =
+                  (match f with
+                   | FChunked -> true
+                   | _ -> false); ri_readable = false; ri_reads_body =
+                  (reads_body a r) } :: []
+              | BodyUnspec -> []))
+        | _ -> []))
+
+(** val boundaries : bytes list -> nat -> nat list **)
+
+let rec boundaries segs1 pos =
+  match segs1 with
+  | [] -> []
+  | g :: r -> (add pos (length g)) :: (boundaries r (add pos (length g)))
+
+(** val known_F20c : app0 -> nat -> bytes list -> bool **)
+
+let known_F20c a max_head segs1 =
+  let total = concat segs1 in
+  let infos = req_infos (S (length total)) a max_head total O in
+  let bs0 = boundaries segs1 O in
+  existsb (fun ri ->
+    (&&)
+      ((&&) ((&&) ri.ri_chunked ri.ri_readable)
+        (Nat.ltb ri.ri_end (length total)))
+      (negb (existsb (Nat.eqb ri.ri_end) bs0))) infos
+
+(** val known_F21 : app0 -> nat -> bytes list -> bool **)
+
+let known_F21 a max_head segs1 =
+  let total = concat segs1 in
+  existsb (fun ri -> (&&) (negb ri.ri_readable) (negb ri.ri_reads_body))
+    (req_infos (S (length total)) a max_head total O)
